@@ -650,11 +650,16 @@ func laterOf(t, ot time.Time) time.Time {
 // (SQLite does not enforce constraints of virtual tables itself). For an
 // INSERT every column must be non-NULL, for an UPDATE every assigned one.
 func (c *VirtualTable) checkNotNull(values map[int]interface{}, insert bool) error {
+	off := 0
+	if c.usesRowID {
+		// SQLite's column 0 is the hidden _rowid_; there is no key column
+		off = 1
+	}
 	for i, col := range c.schema.Columns {
-		if !col.NotNull || i == c.KeyCol {
+		if !col.NotNull || (!c.usesRowID && i == c.KeyCol) {
 			continue
 		}
-		if v, assigned := values[i]; (assigned || insert) && v == nil {
+		if v, assigned := values[i+off]; (assigned || insert) && v == nil {
 			return ErrS3DBConstraintNotNull
 		}
 	}
